@@ -542,6 +542,10 @@ func (fd *Client) BatchWriteItem(input *dynamodb.BatchWriteItemInput) (*dynamodb
 		return &dynamodb.BatchWriteItemOutput{}, err
 	}
 
+	if err := fd.validateBatchWriteRequests(input); err != nil {
+		return &dynamodb.BatchWriteItemOutput{}, err
+	}
+
 	unprocessed := map[string][]*dynamodb.WriteRequest{}
 
 	for table, reqs := range input.RequestItems {
@@ -594,6 +598,39 @@ func validateBatchWriteItemInput(input *dynamodb.BatchWriteItemInput) error {
 
 	if count > batchRequestsLimit {
 		return awserr.New("ValidationException", "Too many items requested for the BatchWriteItem call", nil)
+	}
+
+	return nil
+}
+
+// validateBatchWriteRequests checks every request of the batch before the first one is executed,
+// a batch with a request that cannot be applied is rejected as a whole and leaves no trace
+func (fd *Client) validateBatchWriteRequests(input *dynamodb.BatchWriteItemInput) error {
+	fd.mu.Lock()
+	defer fd.mu.Unlock()
+
+	if fd.forceFailureErr != nil {
+		// every request is going to be answered with the emulated failure
+		return nil
+	}
+
+	for tableName, reqs := range input.RequestItems {
+		table, err := fd.getTable(tableName)
+		if err != nil {
+			return err
+		}
+
+		for _, req := range reqs {
+			if req.PutRequest != nil {
+				err = table.ValidatePut(mapAttributeValueToTypes(req.PutRequest.Item))
+			} else {
+				err = table.ValidateKey(mapAttributeValueToTypes(req.DeleteRequest.Key))
+			}
+
+			if err != nil {
+				return err
+			}
+		}
 	}
 
 	return nil
